@@ -98,9 +98,16 @@ fn exec_laws(sc: &Scenario) -> Report {
         let mut r = Report::default();
         let len = if sc.c("len_known") == 1 { Some(sc.c("len0")) } else { None };
         let pb = ProgressBar::with_draw_target(len, ProgressDrawTarget::hidden());
+        // (a bar that claims to have been running for a while already: only elapsed() moves)
+        let pb = if sc.c("with_elapsed_ns") > 0 { pb.with_elapsed(Duration::from_nanos(sc.c("with_elapsed_ns"))) } else { pb };
         let now = || sched::clock_ns();
         let mut reference = RefEst::new(now());
         let mut max_rate: f64 = 0.0;
+        // largest sample rate since creation, valid while nothing made the bar forget (no reset of
+        // the elapsed time, no rewind): bounds the average rate a finished bar reports
+        let mut max_rate_ever: f64 = 0.0;
+        let mut never_forgot = true;
+        let mut abandoned = false;
         let mut finished = false;
         let mut pos: u64 = 0;
         let mut cur_len = len;
@@ -125,14 +132,20 @@ fn exec_laws(sc: &Scenario) -> Report {
                         r.violate("C09.no_panic", format!("{at} panicked: {e}"));
                         break;
                     }
+                    if finished {
+                        // a finished bar that is moved again: no samples stand behind its position
+                        never_forgot = false;
+                    }
                     if !finished {
                         let before_start = reference.start_t;
                         if let Some(rate) = reference.record(p, now()) {
                             max_rate = max_rate.max(rate);
+                            max_rate_ever = max_rate_ever.max(rate);
                             stall_prev = None;
                             r.probe("samples_recorded");
                         }
                         if reference.start_t != before_start {
+                            never_forgot = false;
                             max_rate = 0.0;
                             last_reset_ns = sched::clock_ns();
                             stall_prev = None;
@@ -152,6 +165,9 @@ fn exec_laws(sc: &Scenario) -> Report {
                     }
                     reference.reset(now());
                     max_rate = 0.0;
+                    if op.k != "reset_eta" {
+                        never_forgot = false;
+                    }
                     last_reset_ns = sched::clock_ns();
                     stall_prev = None;
                     if op.k == "reset" {
@@ -167,9 +183,11 @@ fn exec_laws(sc: &Scenario) -> Report {
                         let before_start = reference.start_t;
                         if let Some(rate) = reference.record(pos, now()) {
                             max_rate = max_rate.max(rate);
+                            max_rate_ever = max_rate_ever.max(rate);
                             stall_prev = None;
                         }
                         if reference.start_t != before_start {
+                            never_forgot = false;
                             max_rate = 0.0;
                             last_reset_ns = sched::clock_ns();
                             stall_prev = None;
@@ -177,6 +195,14 @@ fn exec_laws(sc: &Scenario) -> Report {
                     }
                 }
                 "finish" => {
+                    if !finished {
+                        abandoned = op.n0() % 5 > 2;
+                        if reference.prev_steps != pos {
+                            // progress made at the very instant of the previous sample is not
+                            // covered by any sample rate yet
+                            never_forgot = false;
+                        }
+                    }
                     finished = true;
                     if op.n0() % 5 <= 2 {
                         if let Some(l) = cur_len {
@@ -202,6 +228,16 @@ fn exec_laws(sc: &Scenario) -> Report {
                     r.violate("C09.eta_relation", format!("{at}: finished bar reports eta {eta:?} duration {dur:?}"));
                     break;
                 }
+                // an abandoned bar did exactly the steps its samples showed: whatever rate it
+                // reports now cannot exceed the largest rate ever observed
+                if abandoned && never_forgot && ps > max_rate_ever * (1.0 + 1e-9) + 1e-300 {
+                    r.violate(
+                        "C09.bounded",
+                        format!("{at}: abandoned at position {pos}: per_sec() = {ps} exceeds the largest rate of any sample since creation ({max_rate_ever})"),
+                    );
+                    break;
+                }
+                r.probe("finished_bar_queries");
                 continue;
             }
             // (3) bounded by the largest sample rate since the last reset
@@ -268,6 +304,7 @@ fn exec_steady(sc: &Scenario) -> Report {
         let sc = sc2;
         let mut r = Report::default();
         let pb = ProgressBar::with_draw_target(Some(u64::MAX), ProgressDrawTarget::hidden());
+        let pb = if sc.c("with_elapsed_ns") > 0 { pb.with_elapsed(Duration::from_nanos(sc.c("with_elapsed_ns"))) } else { pb };
         // rate: k steps per millisecond (k >= 1), or one step per m milliseconds
         let k = sc.c("steps_per_ms");
         let m = sc.c("ms_per_step").max(1);
@@ -498,7 +535,7 @@ impl Check for C09 {
         "C09"
     }
     fn rule_text(&self) -> String {
-        "laws: 1..60 updates (gap, position) with gaps log-uniform 1 ms..3 days plus exact cadences, positions up to 1e15, reset_eta/reset_elapsed/reset/backwards seeks/set_length/finish at random places, queries at update instants and during stalls; checked: per_sec finite and >= 0 and eta/duration well formed at every instant strictly after creation or the last reset, per_sec <= largest sample rate since the last reset, successive stall queries non-increasing, eta == remaining/per_sec (0 when finished / unknown length / no progress), duration == elapsed + eta, all at one frozen instant. steady: every update lies exactly on p = p0 + r (t - t0) (k steps per ms with whole-ms gaps, or one step per m ms with gaps multiple of m) with irregular cadence => |per_sec - r| <= 1e-7 r at every update. twins: two bars with different pre-histories are synchronised (same position recorded at the same instant), forget (reset_eta / reset / backwards seek) and get the same post-history => bit-identical per_sec and eta. The oracle states laws only: a different estimator that satisfies them passes. Non-trivial: laws = >= 2 recorded samples; steady = >= 2 updates; twins = >= 2 post operations. Distinct = distinct scenario hash.".into()
+        "laws: 1..60 updates (gap, position) with gaps log-uniform 1 ms..3 days plus exact cadences, positions up to 1e15, reset_eta/reset_elapsed/reset/backwards seeks/set_length/finish/abandon at random places, bars built with_elapsed, queries at update instants and during stalls; checked: per_sec finite and >= 0 and eta/duration well formed at every instant strictly after creation or the last reset, per_sec <= largest sample rate since the last reset (an abandoned bar: <= the largest sample rate since creation unless the bar was told to forget), successive stall queries non-increasing, eta == remaining/per_sec (0 when finished / unknown length / no progress), duration == elapsed + eta, all at one frozen instant. steady: every update lies exactly on p = p0 + r (t - t0) (k steps per ms with whole-ms gaps, or one step per m ms with gaps multiple of m) with irregular cadence => |per_sec - r| <= 1e-7 r at every update. twins: two bars with different pre-histories are synchronised (same position recorded at the same instant), forget (reset_eta / reset / backwards seek) and get the same post-history => bit-identical per_sec and eta. The oracle states laws only: a different estimator that satisfies them passes. Non-trivial: laws = >= 2 recorded samples; steady = >= 2 updates; twins = >= 2 post operations. Distinct = distinct scenario hash.".into()
     }
     fn assumptions(&self) -> Vec<String> {
         vec![
@@ -538,12 +575,15 @@ impl Check for C09 {
                 let mut sc = Scenario::new("C09", "laws", rng.next_u64());
                 sc.set("len_known", rng.chance(4, 5) as u64);
                 sc.set("len0", *rng.pick(&[0, 100, 1_000_000, 1_000_000_000_000_000, u64::MAX]));
+                if rng.chance(1, 6) {
+                    sc.set("with_elapsed_ns", *rng.pick(&[1, 1_000_000_000, 120_000_000_000, 86_400_000_000_000]));
+                }
                 let mut ops = gen_history(rng, n, true);
                 if rng.chance(1, 6) {
                     let at = rng.usize_below(ops.len() + 1);
                     ops.insert(at, Op::new("set_length").n(rng.below(1_000_000)));
                 }
-                if rng.chance(1, 6) {
+                if rng.chance(1, 4) {
                     ops.push(Op::new("finish").n(rng.below(5)));
                     ops.push(Op::new("gap").n(1_000_000_000));
                     ops.push(Op::new("query"));
@@ -554,6 +594,9 @@ impl Check for C09 {
             1 => {
                 let mut sc = Scenario::new("C09", "steady", rng.next_u64());
                 sc.set("base_pos", *rng.pick(&[0, 0, 1 << 53, (1 << 60) + 7, 1 << 62, 1_000_000_007]));
+                if rng.chance(1, 5) {
+                    sc.set("with_elapsed_ns", *rng.pick(&[1_000_000_000, 120_000_000_000, 86_400_000_000_000]));
+                }
                 if rng.chance(1, 2) {
                     sc.set("steps_per_ms", *rng.pick(&[1, 2, 7, 1000, 1_000_000]));
                 } else {
